@@ -26,6 +26,9 @@ CHECKS = {
  "C07": ("exploration", "property tests with statistical and search oracles: repeated creation in-process and across worker processes (pairwise distinctness, per-bit balance), marker search over generated encrypted archives, generated recipient sets x candidate key lists",
          "Detects constant or per-process seeding, key / nonce / ephemeral-key reuse, gross entropy loss, any write path that lets plaintext or names through unencrypted, and key-list handling errors (opens iff a recipient key is in the candidate list, at any position). It cannot establish that values are never repeated or unpredictable.",
          "13-sigma statistical bands; incompressible marker contents so that a cipher bypass stays visible behind compression; production constants only.", "DESIGN.md section 4 C07"),
+ "C08": ("fault_enumeration", "structure-aware fuzzing: generated (base archive, <=3 byte-level or structure-level mutations re-encoded by refimpl under valid encryption/compression, operation script) cases executed in worker processes with a panic hook, a source work meter and a counting allocator; coverage-guided libFuzzer targets with the same oracle in the thorough tier",
+         "Every reader-side entry point (open, list, get_file/read, get_hash, linear_extract, repair in both modes, drop, and continued use after errors) is driven over damaged archives including forged indexes, size tables and 300000-entry offset tables behind valid crypto; a case fails on any panic (caught in-process, shrunk), on the death of the worker process (stack overflow, abort: the in-flight case is the replay), on more than 64 x (input+4096) source calls per reader (deterministic hang detection) or on a peak heap above 640 MiB + 64 x input during one operation.",
+         "Cases are pure functions of the generated value (base archives are encoded by refimpl with fixed secrets); CPU-only loops that never touch the source are only caught by the wall-clock backstop (exit 2); 8 MiB stack in workers.", "DESIGN.md section 4 C08"),
  "C09": ("exploration", "stateful model-based property test: exhaustive enumeration of short writer call sequences over an abstract alphabet plus generated long sequences, judged by a state model, read-back and a twin writer that receives only the accepted calls",
          "Every call whose refusal can be known before writing must return Err exactly when the model says so; after closing and finalizing, the archive must equal the model and the twin writer's archive (byte-identical up to the end marker without layers), so a refused call that leaves any trace is caught; a short source must never yield Ok.",
          "The model encodes the refusal rules listed in the property; ids are assumed sequential only to name add_file's file.", "DESIGN.md section 4 C09"),
